@@ -1131,6 +1131,7 @@ DLLIMPORT cfg_value_t *cfg_setopt(cfg_t *cfg, cfg_opt_t *opt, const char *value)
 
 	case CFGT_PTR:
 		if (!opt->parsecb) {
+			cfg_error(cfg, _("no value parser for option '%s'"), opt->name);
 			errno = EINVAL;
 			return NULL;
 		}
